@@ -35,29 +35,31 @@ def run(F, R, tier):
     wb = F.mir(wfn)
     wh = F.hir(wfn)
     if r1.anchor(wb, wfn) and r1.anchor(wh, wfn):
-        env = H.Env(wh)
-        seq = []
-        for n in H.walk(H.root(wh)):
-            if n.get("k") == "mcall" and H.local_name(n["recv"]) == "buffer" and n["name"] in ("extend_from_slice", "push", "append", "extend", "insert"):
-                a = n["args"][0]
-                oo = H.origins(a, env, extra=re.compile(r"to_le_bytes$|to_be_bytes$|to_ne_bytes$"))
-                seq.append((n["name"], sorted(map(str, oo))))
-        r1.site("writer appends %s" % seq, wh["value"]["sp"])
-        want = [("extend_from_slice", ["('def', '%s::DID_MARKER')" % SM]), ("push", ["('param', 'version')"]), ("push", ["('param', 'encoding')"]),
-                ("extend_from_slice", ["('call', 'core::convert::TryFrom::try_from')"]), ("append", ["('param', 'data')"])]
-        norm = [(a, [x.replace("<u16 as core::convert::TryFrom<usize>>::try_from", "core::convert::TryFrom::try_from") for x in b]) for a, b in seq]
-        r1.require([a for a, _ in norm] == [a for a, _ in want] and all(nb == wb_ or (i == 3 and nb and "try_from" in nb[0]) for i, ((_, nb), (_, wb_)) in enumerate(zip(norm, want))), (wfn, "layout"),
-                   "the writer does not append marker, version, encoding, length, data in that order: %s" % seq)
-        # length: checked conversion to u16, little endian
-        fns = {f for f in H.called_fns(H.root(wh))}
-        le = any(f.endswith("u16::to_le_bytes") for f in fns)
-        checked = L.require_tried_before_success(r1, F, wfn, [("u16::try_from(data.len())", re.compile(r"TryFrom<usize>>::try_from$|TryFrom::try_from$"))])
-        r1.require(le, (wfn, "endianness"), "the length is not written with u16::to_le_bytes")
-        casts = [s for b in wb.blocks for s in b["s"] if s["k"] == "assign" and s["rv"]["k"] == "cast" and s["rv"]["ty"] == "u16"]
+        # by abstract evaluation: what the returned buffer receives, in order, on the accepting path
+        tabw = SR.Table(F, wfn, rule=r1)
+        okp = tabw.ok()
+        r1.require(len(okp) >= 1 or not tabw.paths, (wfn, "no-success"), "add_flags_to_message has no accepting path")
+        for q in okp:
+            ret = q.ret.fields[0] if isinstance(q.ret, sym.V) and q.ret.fields else q.ret
+            seq = [(e.name, e.args[1]) for e in q.events if e.kind == "call" and e.name in ("extend_from_slice", "push", "append", "extend", "insert", "extend_from_within", "resize", "truncate")
+                   and e.args and sym.term(e.args[0]) == sym.term(ret)]
+            shown = [(a, sym.fmt(sym.term(b))[:60]) for a, b in seq]
+            r1.site("writer appends %s" % shown)
+            lenconv = [e for e in q.calls(r"try_from$") if q.succeeded(e) is True and sym.term(e.args[0]) == ("call", "alloc::vec::Vec::len", (SR.param("data"),))]
+            good = len(seq) == 5
+            if good:
+                marker = sym.Evaluator(F).const_value(SM + "::DID_MARKER")
+                good = (isinstance(marker, list) and len(marker) == 3 and sym.term(seq[0][1]) == sym.term(marker) and seq[0][0] in ("extend_from_slice", "extend")
+                        and seq[1] == ("push", sym.Sym(SR.param("version"))) and seq[2] == ("push", sym.Sym(SR.param("encoding")))
+                        and seq[3][0] in ("extend_from_slice", "extend") and bool(lenconv) and sym.term(seq[3][1])[:1] == ("call",) and sym.term(seq[3][1])[1].endswith("u16::to_le_bytes") and sym.term(seq[3][1])[2] == (("payload", lenconv[0].result.t, "Ok", 0),)
+                        and seq[4][0] in ("append", "extend", "extend_from_slice") and sym.term(seq[4][1]) == SR.param("data"))
+            r1.require(good, (wfn, "layout"), "the writer does not append marker, version, encoding, u16 little-endian length (checked conversion of data.len()), data in that order: %s" % shown)
+            r1.require(bool(lenconv), (wfn, "length-of-data"), "the length written is not a checked conversion of data.len()")
+        for q in tabw.err():
+            r1.require(not any(q.succeeded(e) is True for e in q.calls(r"try_from$")) , (wfn, "err"), "the writer fails although the length conversion succeeded")
+        casts = [s_ for b in wb.blocks for s_ in b["s"] if s_["k"] == "assign" and s_["rv"]["k"] == "cast" and s_["rv"]["ty"] == "u16"]
         r1.require(not casts, (wfn, "truncating-cast"), "the payload length is narrowed with `as u16` (silent truncation above 65535 bytes) instead of a checked conversion")
-        for c in H.calls(wh, re.compile(r"TryFrom<usize>>::try_from$|TryFrom::try_from$")):
-            oo = H.origins(c["args"][0], env, accessors=re.compile(r"Vec::len$"))
-            r1.require(oo == {("param", "data", "len")}, (wfn, "length-of-data"), "the length written is not data.len(): %s" % sorted(map(str, oo)))
+        r1.site("writer: length = u16::try_from(data.len())? written with to_le_bytes")
     rfn = SMD + "::unpack"
     rh = F.hir(rfn)
     rb = F.mir(rfn)
